@@ -8,7 +8,7 @@ from lib import core, propgen
 from harness.oracles import all as ALL
 
 ID = 'C15'
-UNITS = []
+UNITS = ['purity_helpers']
 TRANSLATORS = ['writesites']
 NOT_COVERED = ('aliasing rules of NumPy/SciPy calls are taken from their documentation (the fresh/alias tables of translator/writesites.py); the '
                'display module (plotting, keeps a matplotlib axes map by design) is outside the property; bit-identical repeatability is '
@@ -104,8 +104,8 @@ def sweep_helpers(rng, n):
 def _more_sweeps():
     try:
         from harness.oracles import purity as P
-        if hasattr(P, 'search'):
-            return [lambda rng, n: [f for f in (P.search(rng, max(2, n // 10)) or []) if ALL.is_known(f) is None]]
+        if hasattr(P, 'sweep'):
+            return [lambda rng, n: [f for f in (P.sweep(rng, max(1, n // 40)) or []) if ALL.is_known(f) is None]]
     except Exception:  # noqa
         pass
     return []
